@@ -107,6 +107,16 @@ def build_universe(seed, tier):
     for t in list(c.types) + st:
         if t.rust() not in seen:
             seen.add(t.rust()); u.types.append(t)
+    # the grammar universe (C05): more definitions, biased to parameterised ones, several instantiations each
+    g = Universe(seed * 7919 + 13, n_types=0, max_depth=2, n_defs=(14 if tier == 'quick' else 48), prefix='G')
+    for _ in range(g.n_defs):
+        g.defs.append(g.rand_def())
+    u.defs = u.defs + g.defs
+    for d in g.defs:
+        for _ in range(3 if (d.tparams or d.cparams) else 1):
+            t = g.inst(d)
+            if t is not None and t.rust() not in seen:
+                seen.add(t.rust()); u.types.append(t)
     # near-miss mutants (C04): for every registered instance of a definition without type parameters
     from universe import near_miss_mutants, Prim, Tuple
     counter = [0]
@@ -258,6 +268,10 @@ def answers_agree(impl, model):
     """compare one impl answer line with one model answer line"""
     if impl == model:
         return True
+    if model.startswith('derive '):
+        # the model answers whether its derive of the definition is the registered type; the implementation's
+        # answer (type names) is judged by the oracle
+        return model.startswith('derive same') and impl.startswith('derive ')
     if impl.startswith('schema ') and model.startswith('schema '):
         a, b = schema_canon(impl), schema_canon(model)
         if a is None or b is None:
